@@ -196,6 +196,56 @@ pub fn run_c05_c06(prop: &str) -> Report {
     for p in parts {
         rep.merge(p);
     }
+    // sequences inside a transaction: every ordered triple (repetitions included) of one representative per reference class
+    // as the three outputs of a transaction - whatever is carried from one output to the next (a reused evaluation, a buffer)
+    let seq_cases: Vec<(&'static Coin, &'static str)> = coins.iter().flat_map(|c| ["csvdump", "simplestats", "unspentcsvdump", "opreturn"].into_iter().map(move |cb| (*c, cb))).collect();
+    let parts = par_fold(
+        &seq_cases,
+        || Report::new(prop, "e1"),
+        |w, _i, (c, cbn), acc| {
+            let wk = Worker::new(&root, 500 + w);
+            let mut seen = std::collections::BTreeSet::new();
+            let reps: Vec<Vec<u8>> = representatives(c, true).into_iter().filter(|s| s.len() <= 300 && seen.insert(script::expect(c, s).class.to_string())).collect();
+            let mut cb = ChainBuilder::with_genesis(c);
+            let mut txs = Vec::new();
+            let mut k = 0u32;
+            for a in &reps {
+                for b in &reps {
+                    for d in &reps {
+                        let outs = [a, b, d].iter().enumerate().map(|(i, s)| TxOut { value: 1000 + (k as u64) * 3 + i as u64, script: (*s).clone() }).collect();
+                        txs.push(Tx { version: 1, segwit: false, inputs: vec![TxIn::spend([0xec; 32], k)], outputs: outs, locktime: k });
+                        k += 1;
+                    }
+                }
+            }
+            let second = txs.split_off(txs.len() / 2);
+            cb.push(txs);
+            cb.push(second);
+            let world = World::simple(c, &cb.blocks, 0);
+            let spec = RunSpec::new(c.name, cbn);
+            let r = match wk.world_run(&world, &spec) {
+                Ok(r) => r,
+                Err(m) => return acc.machinery(m),
+            };
+            acc.states += 1;
+            acc.transitions += 1;
+            acc.count("output-triples-in-one-transaction", k as u64);
+            acc.nontrivial.insert(h8(format!("triples{}{}", c.name, cbn).as_bytes()));
+            let range = cb.mblocks();
+            let bad = match *cbn {
+                "csvdump" => check_csvdump(&r, c, &range, 0, 2),
+                "unspentcsvdump" => check_unspent(&r, c, &range, 0, 2),
+                "simplestats" => check_stats(&r, c, &range),
+                _ => check_opreturn(&r, c, &range),
+            };
+            if let Some((sig, detail)) = bad.into_iter().next() {
+                acc.disagree(&format!("binding:output-triples:{}", sig), format!("{} {} ({} classes): {}", c.name, cbn, reps.len(), detail.chars().take(500).collect::<String>()), json!({"kind": "e1-described", "world": format!("every ordered triple of {} class representatives as the outputs of a transaction", reps.len()), "coin": c.name, "callback": cbn}));
+            }
+        },
+    );
+    for p in parts {
+        rep.merge(p);
+    }
     let _ = std::fs::remove_dir_all(&root);
     rep
 }
